@@ -253,6 +253,16 @@ impl ConnectionState {
                 // we will have removed the slot when we got the close. It is therefore not
                 // an error to get a CloseOk for a nonexistent slot, since the server is
                 // confirming that a channel is gone (and we don't have it anymore anyway).
+                // For the same reason a CloseOk is not meant for a slot that has not asked
+                // for a close: the id was freed by such a server Close and has been reused
+                // since, and this CloseOk still answers the old channel's Close.
+                let close_requested = inner
+                    .chan_slots
+                    .get(n)
+                    .map_or(false, |slot| slot.close_requested);
+                if !close_requested {
+                    return Ok(());
+                }
                 if let Ok(mut slot) = slot_remove(inner, n) {
                     send(
                         &slot.tx,
